@@ -15,6 +15,9 @@ var gens = map[string]func(props.Ctx) *report.Report{
 	"C01": props.C01,
 	"C02": props.C02,
 	"C03": props.C03,
+	"C05": props.C05,
+	"C06": props.C06,
+	"C07": props.C07,
 	"C12": props.C12,
 	"C15": props.C15,
 	"C18": props.C18,
